@@ -180,6 +180,13 @@ class Ctx:
 
     def add_violation(self, v):
         self.violations.append(v)
+        # campaign mode (orch/campaign.py): stop at the first violation that is not a listed known finding;
+        # the evidence written then only covers the stages that ran
+        if os.environ.get("VERIF_FAILFAST") == "1" and not any(k["property"] == self.prop and k["sig"] == signature(v) for k in load_known()):
+            self.coverage["failfast"] = True
+            rc = finish(self)
+            sys.stdout.flush()
+            os._exit(rc)
 
     def add_stage(self, name, info):
         self.coverage["stages"][name] = info
